@@ -180,7 +180,15 @@ func c09Source(cfg c09Config, i int) (string, []c09Call) {
 	case 1:
 		sb.WriteString("a b\n")
 	case 2:
-		sb.WriteString("   nosuch_function()\n")
+		// two ways to fail the check pass: an unknown function inside a block
+		// after a pattern definition at top level, and a grok that needs that
+		// very pattern without defining it (whatever an earlier, failed check
+		// of ANOTHER script left behind must not make it pass)
+		if i%2 == 0 {
+			sb.WriteString("add_pattern(\"c09pat\", \"x+\")\nif true {\n   nosuch_function()\n}\n")
+		} else {
+			sb.WriteString("ok = grok(_, \"%{c09pat:w}\")\n")
+		}
 	}
 	if s.Kind != 0 && len(s.Calls) == 0 {
 		sb.WriteString("y = 0\n")
